@@ -412,3 +412,47 @@ def rule_pending(prog):
 
 def run_all(prog):
     return [rule_atomic(prog), rule_fields(prog), rule_gate(prog), rule_notify(prog), rule_pending(prog), rule_globals(prog), rule_parse_globals(prog)]
+
+
+RUNTIME_RESET = {
+    "scroll_state": "keeps scrolling on its own", "hscroll_state": "keeps scrolling on its own",
+    "move_mouse_state_vertical": "keeps moving the pointer on its own", "move_mouse_state_horizontal": "keeps moving the pointer on its own",
+    "caps_word": "keeps shifting typed letters until its timeout",
+    "unmodded_keys": "keys held outside the layout by unmod", "unshifted_keys": "keys held outside the layout by unshift",
+    "waiting_for_idle": "on-idle actions that name virtual keys of the old configuration",
+    "vkeys_pending_release": "pending releases that name virtual keys of the old configuration",
+}
+
+
+def rule_runtime(prog):
+    """R-RELOAD-RUNTIME (C15): a successful reload clears the run-time state that would go on producing output by itself
+    or that refers to keys of the replaced configuration: after the reload kanata behaves like a fresh instance of the
+    new file. Each field of the table is set to None / cleared in do_live_reload, after the new file has parsed."""
+    from kq.gf2 import root_desc
+    res = RuleResult("R-RELOAD-RUNTIME", "a reload clears self-acting and configuration-bound run-time state", floor=9)
+    f = prog.fn(K + "::do_live_reload")
+    res.fn(f)
+    pb, sw, okb = _ok_arm(prog, f)
+    ok_region = f.dominated_by(okb) if okb is not None else set()
+    cleared = {}
+    for bi, si, st in f.all_rvalues():
+        pf = proj_fields(st["p"])
+        if pf and pf[0][0] == K and len(pf) == 1 and bi in ok_region:
+            rv = st["rv"]
+            if rv["k"] == "agg" and rv.get("v") == "None":
+                cleared[pf[0][2]] = "= None"
+    for bi, t in f.calls():
+        if (callee_name(t) or "").split("::")[-1] == "clear" and t["args"] and bi in ok_region:
+            d = root_desc(f, t["args"][0]) or ""
+            if d.startswith("_1."):
+                cleared[d[3:].split(".")[0]] = "clear()"
+    for name, why in sorted(RUNTIME_RESET.items()):
+        ok = name in cleared
+        res.inst("reset/" + name, how=cleared.get(name), ok=ok)
+        res.oblige(ok)
+        if not ok:
+            res.viol("reset/" + name, f.loc,
+                     "a successful reload does not clear Kanata.%s (%s): the new configuration starts with state of the old one, so "
+                     "kanata does not behave like a fresh instance (e.g. the wheel keeps turning, the letter after the reload is shifted)"
+                     % (name, why))
+    return res
